@@ -16,6 +16,18 @@ def _run(c, prop):
         raise vf.Inconclusive('simulation failed: %s\n%s' % (s['error'], s['out'][-3000:]))
     behs = c.behaviours(s)
     c.log('TLC simulate: %d behaviours' % len(behs))
+    # witness behaviours: shortest schedules reaching the windows the properties are about, replayed in every run
+    wit = []
+    for inv, opsdef in WITNESSES:
+        b = c.tlc_witness('SubLifecycle', 'SubLifecycle', 'sim.cfg', inv, overrides={'OpSets': opsdef})
+        if b is None:
+            c.notes.append('witness %s unreachable' % inv)
+            c.cov['actions_never_taken'].append('witness:' + inv)
+        else:
+            wit.append(b)
+    c.cov['witness_behaviours'] = len(wit)
+    c.log('witness behaviours: %d of %d' % (len(wit), len(WITNESSES)))
+    behs = wit + behs
     res = c.harness(binp, 'replay', {'behaviours': behs}, timeout=1500)
     c.absorb(res)
     c.cov['traces_validated_against_impl'] = res['completed']
@@ -51,6 +63,11 @@ def _presence_stats(c):
     c.cov['traces_validated_against_impl'] += res['completed']
     c.cov['evaluations'] += res['executed']
     c.cov['distinct_nontrivial'] += res['nontrivial']
+
+
+WITNESSES = [('W_TickAfterResubscribe', 'WOps1'), ('W_LeaveBeforeJoin', 'WOps2'), ('W_CloseDuringSubscribe', 'WOps3'),
+             ('W_UnsubscribeWaited', 'WOps4'), ('W_StaleTickPresence', 'WOps6'),
+             ('W_ResubscribeBeforeJob', 'WOps7')]
 
 
 def mk(prop):
